@@ -37,6 +37,45 @@ def requests(lang, cfg, files, gen, multi_file=False, target_os=()):
     return mreq, rreq, texts
 
 
+def names_of(file):
+    """identifiers and rename strings of an abstract file (for the convert_case table)"""
+    out = set()
+
+    def attrs(al):
+        for a in al:
+            if a[0] == "l" and a[1] == ["serde"] and a[2]:
+                for x in a[3]:
+                    if x[0] == "nv" and x[1] in (["rename"], ["tag"], ["content"]) and x[2] and x[2][0] == "s":
+                        out.add(x[2][1].strip())
+
+    def fields(fs):
+        if fs[0] != "unit":
+            for f in fs[1]:
+                attrs(f["attrs"])
+                if f["ident"]:
+                    out.add(f["ident"].replace("r#", ""))
+
+    def items(its):
+        for it in its:
+            k = it["kind"]
+            if k in ("mod", "other"):
+                items(it["items"])
+                continue
+            if k == "use":
+                continue
+            attrs(it.get("attrs", []))
+            out.add(it["ident"])
+            if k == "struct":
+                fields(it["fields"])
+            if k == "enum":
+                for v in it["variants"]:
+                    attrs(v["attrs"])
+                    out.add(v["ident"])
+                    fields(v["fields"])
+    items(file["items"])
+    return out
+
+
 def norm(a):
     if "io-err" in a:
         return {"err": "format"}
